@@ -105,7 +105,6 @@ example :
       [.draw [97], .saveCursor, .setMode [6] true, .resize (some 2) none, .restoreCursor, .linefeed] = true := by
   decide
 
-theorem dispatch_RIS : escapeDispatch 99 = [.reset] := by rfl
 
 /-- non-vacuity: after an arbitrary history, RIS gives the power-on screen -/
 example :
